@@ -30,6 +30,8 @@ def configs(tier):
            {'name': 'normal-is-gradient-conic', 'kind': 'normal', 'surf': 'conic'},
            {'name': 'normal-is-gradient-sphere', 'kind': 'normal', 'surf': 'sphere'},
            {'name': 'normal-plane', 'kind': 'normal', 'surf': 'plane'},
+           {'name': 'normal-is-gradient-off-axis-conic-dy', 'kind': 'normal', 'surf': 'offaxis', 'off': 'dy'},
+           {'name': 'normal-is-gradient-off-axis-conic-dx', 'kind': 'normal', 'surf': 'offaxis', 'off': 'dx'},
            {'name': 'on-axis-conic', 'kind': 'onaxis', 'surf': 'conic'},
            {'name': 'on-axis-sphere', 'kind': 'onaxis', 'surf': 'sphere'},
            {'name': 'surface-then-refract', 'kind': 'surf_refract'},
@@ -49,7 +51,8 @@ def params(cfg):
     if k in ('refract', 'reflect'):
         return [('a', {}), ('b', {}), ('gx', {}), ('gy', {}), ('n', {'lo': 1}), ('np_', {'lo': 1})]
     if k in ('normal', 'onaxis'):
-        return [('x', {'gt': 0, 'lt': 1}), ('y', {'gt': 0, 'lt': 1}), ('c', {'gt': 0, 'lt': 0.3}), ('k', {'gt': -2, 'lt': 0.5})]
+        return [('x', {'gt': 0, 'lt': 1}), ('y', {'gt': 0, 'lt': 1}), ('c', {'gt': 0, 'lt': 0.3}), ('k', {'gt': -2, 'lt': 0.5}),
+                ('s', {'gt': 0, 'lt': 0.5})]
     if k in ('surf_refract', 'surf_reflect'):
         return [('a', {}), ('b', {}), ('x', {'gt': 0, 'lt': 1}), ('y', {'gt': 0, 'lt': 1}), ('c', {'gt': 0, 'lt': 0.3}), ('n', {'lo': 1}), ('np_', {'lo': 1})]
     if k == 'trace':
@@ -138,6 +141,9 @@ def run(cfg, H):
         elif cfg['surf'] == 'sphere':
             surf = sf.Surface.sphere(c, 'refl', [0, 0, 0], None)
             kk = 0
+        elif cfg['surf'] == 'offaxis':
+            sh = H.param('s')
+            surf = sf.Surface.off_axis_conic(c, kk, 'refl', [0, 0, 0], dy=sh if cfg['off'] == 'dy' else 0, dx=sh if cfg['off'] == 'dx' else 0)
         else:
             surf = sf.Surface.plane('eval', [0, 0, 0])
         if k == 'onaxis':
@@ -150,8 +156,11 @@ def run(cfg, H):
                 H.eq('on axis the normal is (0, 0, 1)', der[0], H.asarray([0, 0, 1]))
             return
         x, y = H.param('x'), H.param('y')
+        px, py = x, y          # coordinates with respect to the parent vertex
+        if cfg['surf'] == 'offaxis':
+            px, py = (x + sh, y) if cfg['off'] == 'dx' else (x, y + sh)
         if H.mode == 'symbolic' and cfg['surf'] != 'plane':
-            H.assume(1 - (1 + kk) * c * c * (x * x + y * y) > 0, 'the point is on the real part of the conic')
+            H.assume(1 - (1 + kk) * c * c * (px * px + py * py) > 0, 'the point is on the real part of the conic')
         z, der = surf.sag_normal(H.asarray([x]), H.asarray([y]))
         H.shape_is('normal shape', der, (1, 3))
         H.eq('third component of the normal is 1', der[0, 2], 1)
@@ -166,7 +175,7 @@ def run(cfg, H):
             dzdy = ridders(lambda t: float(surf.sag_normal(np.asarray([x]), np.asarray([t]))[0][0]), y, h=0.01)
         H.eq('normal == (-dz/dx, -dz/dy, 1)', H.asarray([der[0, 0], der[0, 1]]), H.asarray([-dzdx, -dzdy]))
         # the sag satisfies the conic equation  c (x^2+y^2) - 2 z + (1+k) c z^2 == 0
-        rsq = x * x + y * y
+        rsq = px * px + py * py
         H.eq('sag satisfies the conic equation', c * rsq - 2 * z[0] + (1 + kk) * c * z[0] * z[0], 0)
     elif k in ('surf_refract', 'surf_reflect'):
         sf = H.mod('prysm.x.raytracing.surfaces')
